@@ -44,6 +44,7 @@ type Opts struct {
 	// per value; the shorter encodings of tinier doubles are covered by the C10 key harnesses over all doubles.
 	FloatNormal bool
 	ConcFloats  bool // doubles from the concrete boundary set concFloats (keys become concrete)
+	OneFloat    bool // with ConcFloats: only the value 0
 }
 
 var concFloats = []float64{-1.5, 0, 2.5}
@@ -102,6 +103,9 @@ func Value(name string, o Opts) interface{} {
 		return v
 	case KFloat:
 		if o.ConcFloats {
+			if o.OneFloat {
+				return float64(0)
+			}
 			return concFloats[nd.Choice(name+".cf", len(concFloats))]
 		}
 		f := nd.Float64(name + ".f")
